@@ -153,7 +153,8 @@ fn c02_case(ctx: &Ctx, case: u64, acc: &mut Acc) -> Verdict {
         // joining left unrelated are then found quickly. No single run carries a verdict (which member is asked
         // is random), the rate does (see c02_aggregate)
         if let Some((freq, _)) = cfg.pa {
-            if freq <= 2 * p {
+            // (rates calibrated for clusters of up to 8 members; larger ones need more than 4n+4 periods more often)
+            if freq <= 2 * p && n <= 8 {
                 let both = if cfg.pg.is_some() { "_and_gossip" } else { "_only" };
                 acc.tally(&format!("unrelated_pairs_runs_with_frequent_periodic_announce{both}"), 1);
                 if full_done.is_none() {
@@ -400,7 +401,7 @@ fn c02_feedfit_var(ctx: &Ctx, case: u64, acc: &mut Acc) -> Verdict {
 /// Rate rule for the discovery clause where it is only probabilistic: pairs that joining left unrelated in both
 /// directions (concurrent joins through different seeds). With a frequent periodic announce (every <= 2 probe
 /// periods) each announce is answered with a Feed carrying the other member's whole view, and on the unchanged
-/// tree 9 % (announce + gossip on) / 12 % (announce only) of such runs still lack a full view after 4n+4
+/// tree 9 % (announce + gossip on) / 12 % (announce only) of such runs (clusters of up to 8) still lack a full view after 4n+4
 /// periods. A change that silences the periodic announce (or the Feed) pushes that beyond 30 %.
 fn c02_aggregate(acc: &Acc) -> Option<V> {
     for which in ["_and_gossip", "_only"] {
